@@ -68,7 +68,12 @@ def _is_simple(vertices):
     vertices = np.asarray(vertices, dtype=np.float64)
     vertices = vertices - np.mean(vertices, axis=0)
     vertices = vertices / np.max(np.abs(vertices))
-    return len(poly_point_isect.isect_polygon(vertices)) == 0
+    try:
+        return len(poly_point_isect.isect_polygon(vertices)) == 0
+    except AssertionError:
+        # The consistency checks of the sweep fail when several edges meet in one
+        # point (e.g. an edge crossing passes through a vertex): not a simple polygon.
+        return False
 
 
 class Polygon(Shape2D):
